@@ -52,9 +52,70 @@ Example C11_example : (* rate = 2 x input; steps 3,5,7 with intervals 10,20,30; 
   Qred (integrate g [3; 5; 7] (map (Qmult 2) [10; 20; 30])) = 1360.
 Proof. vm_compute. repeat split. Qed.
 
+
+(* ------------------------------------------------------------------------------------------------
+   The same laws for a WHOLE CALCULATION on an electric plant (Model/Plant.v): the power balance of
+   Model/ElecBalance.v at every step, through the bus-configuration periods of Model/Bus.v, then any
+   per-component rate of an extensive figure, then the interval-weighted sum.  Here the integrand is not
+   an arbitrary function any more: that it depends on the step alone is the content of the proof
+   (the balance is step-wise, C01_pointwise; the configuration in force at step t is that of the breaker
+   positions at step t, C02_effective_from_t). *)
+From Feems Require Import Model.Bus Model.ElecBalance Model.Plant Proofs.PlantProofs.
+
+(* additive over time: breaker positions and unit statuses may change anywhere, also exactly at the cut *)
+Theorem C11_system_split rate plant es swbs sts dt k : (k <= length dt)%nat ->
+  run_figure rate plant es swbs sts dt
+  == run_figure rate (take_plant k plant) es swbs (firstn k sts) (firstn k dt)
+     + run_figure rate (drop_plant k plant) es swbs (skipn k sts) (skipn k dt).
+Proof. apply run_split. Qed.
+
+(* unchanged when the intervals are reordered together with ALL their inputs *)
+Theorem C11_system_permute rate plant es swbs sts dt p : Permutation p (seq 0 (length dt)) ->
+  run_figure rate (reindex_plant p plant) es swbs (reindex [] p sts) (reindex 0 p dt) == run_figure rate plant es swbs sts dt.
+Proof. apply run_permute. Qed.
+
+(* proportional to the interval lengths *)
+Theorem C11_system_scale rate plant es swbs sts dt k :
+  run_figure rate plant es swbs sts (map (Qmult k) dt) == k * run_figure rate plant es swbs sts dt.
+Proof. apply run_scale. Qed.
+
+Theorem C11_system_single_point rate plant es swbs sts d :
+  run_figure rate plant es swbs sts [d] == step_rate rate plant es swbs sts 0 * d.
+Proof. apply run_single_point. Qed.
+
+(* the duration (rate 1 carried by the first component) is the sum of the intervals *)
+Theorem C11_system_duration plant es swbs sts dt n0 : length plant = S n0 ->
+  run_figure (fun j _ => if Nat.eqb j 0 then 1 else 0) plant es swbs sts dt == qsum dt.
+Proof. apply run_duration. Qed.
+
+(* Non-vacuity: two switchboards, the tie opens at step 1 and closes again at step 3, the genset on
+   switchboard 2 stops at step 2; the figure is a "fuel" rate quadratic in the power of the sources.
+   Whole series = part [0,2) + part [2,4); reversed order gives the same; doubled intervals the double. *)
+Definition c11_plant : list (comp * cin) :=
+  [ ({| c_swb := 1; c_kind := Source;   c_rated := 1000 |}, {| i_status := [true; true; true; true];  i_lsm := [0; 0; 0; 0]; i_pin := [] |});
+    ({| c_swb := 2; c_kind := Source;   c_rated := 500 |},  {| i_status := [true; true; false; true]; i_lsm := [0; 0; 0; 0]; i_pin := [] |});
+    ({| c_swb := 1; c_kind := Consumer; c_rated := 2000 |}, {| i_status := []; i_lsm := []; i_pin := [300; 600; 450; 150] |});
+    ({| c_swb := 2; c_kind := Consumer; c_rated := 2000 |}, {| i_status := []; i_lsm := []; i_pin := [300; 100; 0; 150] |}) ].
+Definition c11_rate (j : nat) (p : Q) : Q := if Nat.leb j 1 then p * p / 1000000 + p / 5000 else 0.
+Example C11_system_example :
+  let sts := [[true]; [false]; [false]; [true]] in
+  let dt := [60; 30; 90; 120] in
+  let run pl st d := Qred (run_figure c11_rate pl [(1, 2)%nat] [1; 2]%nat st d) in
+  run c11_plant sts dt = 2961 # 40 /\
+  Qred (run_figure c11_rate (take_plant 2 c11_plant) [(1, 2)%nat] [1; 2]%nat (firstn 2 sts) (firstn 2 dt)
+        + run_figure c11_rate (drop_plant 2 c11_plant) [(1, 2)%nat] [1; 2]%nat (skipn 2 sts) (skipn 2 dt)) = 2961 # 40 /\
+  run (reindex_plant [3; 2; 1; 0]%nat c11_plant) (reindex [] [3; 2; 1; 0]%nat sts) (reindex 0 [3; 2; 1; 0]%nat dt) = 2961 # 40 /\
+  run c11_plant sts (map (Qmult 2) dt) = 2961 # 20.
+Proof. vm_compute. repeat split. Qed.
+
 Print Assumptions C11_split.
 Print Assumptions C11_permute.
 Print Assumptions C11_scale.
 Print Assumptions C11_single_point.
 Print Assumptions C11_duration.
 Print Assumptions C11_parts_add.
+Print Assumptions C11_system_split.
+Print Assumptions C11_system_permute.
+Print Assumptions C11_system_scale.
+Print Assumptions C11_system_single_point.
+Print Assumptions C11_system_duration.
